@@ -5,6 +5,7 @@ package gen
 
 import (
 	"fmt"
+	"time"
 
 	gtfsrt "github.com/jamespfennell/gtfs/proto"
 	"google.golang.org/protobuf/proto"
@@ -58,6 +59,7 @@ type WorldCfg struct {
 	Horizon      int   // trains are born (and first assigned) at ticks drawn from [0, Horizon); 0 means 6
 	EpochShift   int64 // the world's clock starts this many seconds after Epoch (2038 rollover, far future)
 	RepeatDaily  bool  // the same trip id (and time of day) runs on two different service days, as NYCT ids do
+	ShortLives   bool  // every train disappears one to three ticks after it appeared (many trips, few at a time)
 }
 
 func DrawWorldCfg(t *sim.T) WorldCfg {
@@ -248,6 +250,15 @@ func (w *World) newTrain(i int) *train {
 	}
 	if t.Chance(1, 4) {
 		tr.deadTick = tr.bornTick + t.Range(1, 12)
+	}
+	if w.Cfg.ShortLives {
+		tr.deadTick = tr.bornTick + t.Range(1, 3)
+		// tens of thousands of trains: spread over service days (start times stay below 24 hours, ids six digits)
+		hm2 := 60000 + 50*(i%1600) + hm%40
+		s2 := (hm2 * 6) / 10
+		tr.id = fmt.Sprintf("%06d%s", hm2, tr.id[6:])
+		tr.startTime = fmt.Sprintf("%02d:%02d:%02d", s2/3600, (s2/60)%60, s2%60)
+		tr.startDate = time.Date(2024, 1, 15+i/1600, 0, 0, 0, 0, time.UTC).Format("20060102")
 	}
 	if !tr.assigned && w.horizon() > 6 && t.Chance(1, 2) {
 		// in long histories: unassigned for a long stretch, assigned at some later tick
